@@ -181,7 +181,7 @@ fn main() {
             }}}
         }
         if small == 100 {
-            for (d, a) in [(2000usize, 2000usize), (2000, 0), (2000, 1), (2000, 1000), (2000, 1999), (70000, 69999), (1, 0)] { n += 1; if let Some(w) = short_file(&s, d, a) { if found.len() < 6 { found.push(w) } } }
+            for (d, a) in [(2000usize, 2000usize), (2000, 0), (2000, 1), (2000, 1000), (2000, 1999), (70000, 69999), (1, 0), (2000, 3000), (4, 10), (70000, 70001), (0, 5)] { n += 1; if let Some(w) = short_file(&s, d, a) { if found.len() < 6 { found.push(w) } } }
             for (d, a) in [(2000usize, 2000usize), (2000, 0), (2000, 1000), (100, 10)] { n += 1; if let Some(w) = short_file2(&s, d, a, true) { if found.len() < 6 { found.push(w) } } }
             for codes in [vec![200u16], vec![200, 200, 200], vec![200, 404, 200], vec![500, 200], vec![200, 204, 503, 200], vec![299, 399, 400]] { n += 1; if let Some(w) = pipeline(&s, &codes) { if found.len() < 6 { found.push(w) } } }
         }
